@@ -763,6 +763,14 @@ pub fn opreturn_payload_scripts() -> Vec<(String, Vec<u8>)> {
         ("ill-fe", vec![b'a', 0xfe, b'b']),
     ];
     let mut specials: Vec<(String, Vec<u8>)> = specials.into_iter().map(|(n, d)| (n.to_string(), d)).collect();
+    // payloads that are ill-formed only because they BEGIN with continuation bytes, of a length whose PUSHDATA length byte is the
+    // lead byte those continuation bytes want (c3 a9 = U+00E9, e2 82 ac = U+20AC, f0 9f 90 9f = U+1F41F): a decoder that starts
+    // one byte early - at the length byte - finds well-formed text
+    for (lead, cont) in [(0xc3usize, &[0xa9u8][..]), (0xe2, &[0x82, 0xac][..]), (0xf0, &[0x9f, 0x90, 0x9f][..])] {
+        let mut d = cont.to_vec();
+        d.resize(lead, b'a');
+        specials.push((format!("continuation-bytes-first-length-{:#x}", lead), d));
+    }
     specials.extend(utf8_alignment_payloads(200));
     for (cname, d) in specials {
         for (fname, enc) in push_forms(&d) {
